@@ -431,7 +431,8 @@ def run_job(job, sizes_of, jid):
             layout = Layout.load(io.StringIO(job.get("text") or layout_text(lay)))
         else:
             layout = mk_layout(lay)
-    projs = [P.project(o, debug=False) for o in objects]
+    # (C14: the objects linked may be reloaded copies; the specification starts from the originals)
+    projs = [P.project(o, debug=False) for o in (job.get("spec_objects") or objects)]
     events = []
     out = run_link(objects, layout, job["opt"], events)
     empty = {"arch": "", "sections": [], "symbols": [], "relocations": [], "images": [], "entry": -1}
@@ -570,6 +571,8 @@ def gen_reloc_job(rng, arch):
                 mode = "back"
             if n < 0 or n > 400:
                 return None
+            if mode == "back" and n % ia:
+                return None  # the instruction itself would be misaligned: not a program of this target
     extra = rng.random() < 0.5  # a second, always representable relocation in a data section
     if far:
         src = pre + [line.format(L="tgt")] + ["ds %d" % rng.choice([0, 4, 8])]
